@@ -50,7 +50,7 @@ void scales(const TasmanianSparseGrid &g, const std::vector<double> &x, std::vec
 } // namespace
 
 void check_C05(Src &s, Ctx &ctx) {
-    SpecOpts so; so.max_dims = 3; so.min_outs = 1; so.max_outs = 3; so.conformal = false; so.cap = cfg().tier ? 600 : 300;
+    SpecOpts so; so.max_dims = 3; so.min_outs = 1; so.max_outs = 3; so.conformal = false; so.cap = cfg().tier ? 400 : 300;
     // family first, biased so that every local polynomial order and both wavelet orders get a fair share
     // (rapidcheck draws small byte values far more often than large ones: choices that must be balanced go through a multiplicative scramble;
     //  an exhausted input still yields index 0)
